@@ -160,6 +160,7 @@ int main (int argc, char **argv)
     if (strstr (levels, "L3")) pgen_L3 (on_prog, NULL, PG_INT);
     if (strstr (levels, "L5")) pgen_L5 (on_prog, NULL);
     if (strstr (levels, "LB")) pgen_LB (on_prog, NULL);
+    if (strstr (levels, "LW")) pgen_LW (on_prog, NULL);
     if (strstr (levels, "LL") && shard == 0) emit_LL ();
   }
   fprintf (f_calls, "const VCallEntry v_calls[] = {\n");
